@@ -14,7 +14,7 @@ OptCfg = KOpt(Configurable)
 s_ = z3.Const('s!ba', sym.Str)
 i_ = z3.Int('i!ba')
 
-REG_FIELDS = {'_REGISTRY', 'REGISTRATION', '_RENAMED_SELECTORS'}
+REG_FIELDS = {'_REGISTRY', 'REGISTRATION', '_RENAMED_SELECTORS', '_INVERSE_REGISTRY'}
 
 # ---- assumed: things behind inspect / dynamic registration -----------------------
 world.VAL_METHOD_CONTRACTS['get_configurable'] = 'config.py::ParseContext.get_configurable'
